@@ -39,12 +39,30 @@ example : (cat (rep (alt (sym (· == 'a')) (sym (· == 'b'))) 1 (some 2)) (star 
 example : ¬ L (cat (rep (alt (sym (· == 'a')) (sym (· == 'b'))) 1 (some 2)) (star (sym (· == 'c')))) "c".toList := by
   rw [← matches_iff]; decide
 
+/-- `[a-c-[b]]+|\s{2}x?` as the parser builds it: a class with a range and a subtraction, a multi-character escape, an
+alternation, a concatenation and the quantifiers `+`, `{2}`, `?` -/
+def samplePat : Pat :=
+  .alt (.rep (.cls [⟨false, [.range 'a' 'c']⟩, ⟨false, [.ch 'b']⟩]) 1 none)
+    (.cat (.rep (.esc false .space) 2 (some 2)) (.rep (.chr 'x') 0 (some 1)))
+
+/-- non-vacuity (audit): the theorem at `[a-c-[b]]+|\s{2}x?` (class, subtraction, escape, alternation, three quantifiers),
+in both directions and with both verdicts: "ca" and " \tx" are in the language, "cb" and " x" are not -/
+example : L samplePat.toRegex "ca".toList ∧ L samplePat.toRegex " \tx".toList ∧
+    ¬ L samplePat.toRegex "cb".toList ∧ ¬ L samplePat.toRegex " x".toList :=
+  ⟨(matches_iff _ _).mp (by decide), (matches_iff _ _).mp (by decide),
+   fun h => absurd ((matches_iff _ _).mpr h) (by decide), fun h => absurd ((matches_iff _ _).mpr h) (by decide)⟩
+
 /-- a restriction is satisfied iff (the string is in the language) ≠ (the restriction is inverted) -/
 theorem satisfies_iff {α : Type} (inv : Bool) (r : Regex α) (s : List α) :
     satisfies inv r s = true ↔ (L r s ↔ inv = false) := by
   rw [← matches_iff]
   unfold satisfies
   cases r.matches s <;> cases inv <;> simp
+
+/-- non-vacuity (audit): an inverted restriction that is satisfied ("cb" against `invert-match` `[a-c-[b]]+|\s{2}x?`) and a
+plain one that is violated; the right-hand sides are then `L … ↔ False` and its negation -/
+example : (L samplePat.toRegex "cb".toList ↔ true = false) ∧ ¬ (L samplePat.toRegex "cb".toList ↔ false = false) :=
+  ⟨(satisfies_iff true _ _).mp (by decide), fun h => absurd ((satisfies_iff false _ _).mpr h) (by decide)⟩
 
 /-- `invert-match` negates the verdict -/
 theorem invert_match_negates {α : Type} (r : Regex α) (s : List α) :
@@ -62,6 +80,14 @@ theorem validatePatterns_iff {α : Type} (ps : List (Regex α × Bool)) (s : Lis
 
 example : validatePatterns [(star (sym (· == 'a')), false), (sym (· == 'a'), true)] "aa".toList = true := by decide
 
+/-- non-vacuity (audit): three restrictions, the middle one inverted: "ca" passes all of them (theorem left to right), "cb"
+does not -/
+example : ∀ p ∈ [(samplePat.toRegex, false), (star (sym (· == 'c')), true), (plus (sym dotMem), false)],
+    (L p.1 "ca".toList ↔ p.2 = false) :=
+  (validatePatterns_iff _ _).mp (by decide)
+example : validatePatterns [(samplePat.toRegex, false), (star (sym (· == 'c')), true), (plus (sym dotMem), false)] "cb".toList = false := by
+  decide
+
 /-- the grid op of the driver (shared derivatives) is the matcher applied to every string of the grid -/
 theorem gridLevel_eq (A : List Char) : ∀ (n : Nat) (r : Regex Char),
     Drv.gridLevel A r n = (Drv.strsOfLen A n).map r.matches
@@ -75,9 +101,18 @@ theorem gridLevel_eq (A : List Char) : ∀ (n : Nat) (r : Regex Char),
     intro s _
     simp [Regex.matches]
 
+/-- non-vacuity (audit): level 2 of the grid over `{a, b, c}` for `[a-c-[b]]+|\s{2}x?`: nine strings, mixed verdicts -/
+example : Drv.gridLevel ['a', 'b', 'c'] samplePat.toRegex 2 = [true, false, true, false, false, false, true, false, true] ∧
+    (Drv.strsOfLen ['a', 'b', 'c'] 2).map samplePat.toRegex.matches = [true, false, true, false, false, false, true, false, true] :=
+  ⟨by decide, gridLevel_eq _ _ _ ▸ by decide⟩
+
 /-- XSD `.` is `[^\n\r]` in the spec (the statement F10 is measured against) -/
 theorem dot_excludes_lf_cr (c : Char) : L (Pat.toRegex .dot) [c] ↔ (c ≠ '\n' ∧ c ≠ '\r') := by
   simp [Pat.toRegex, L, dotMem]
+
+/-- non-vacuity (audit): both sides true for 'a', both false for CR (the F10 character) -/
+example : L (Pat.toRegex .dot) ['a'] ∧ ¬ L (Pat.toRegex .dot) ['\r'] :=
+  ⟨(dot_excludes_lf_cr 'a').mpr (by decide), fun h => ((dot_excludes_lf_cr '\r').mp h).2 rfl⟩
 
 /-! ## B. pass 1: escaping of `^` and `$` -/
 
@@ -112,6 +147,17 @@ theorem rewrite_rejects_stray_bracket (fx : Fixes) (p : Bytes) :
 -- non-vacuity: `[\]]` is well bracketed (accepted), `\[a]` is not (rejected)
 example : escapeLoop Fixes.none 0 false [91, 92, 93, 93] = .ok [91, 92, 93, 93] := by decide
 example : escapeLoop Fixes.none 0 false [92, 91, 97, 93] = .error .strayBracket := by decide
+
+/-- non-vacuity (audit): the iff in both directions. `a[\]^]\[$` (an escaped `]` inside a class, an escaped `[` outside) is
+well bracketed because pass 1 accepts it; `[a]\\]` (an escaped backslash, then a `]` that closes nothing) is not because
+pass 1 rejects it — and it is rejected with the repairs on as well -/
+example : WellBracketed [97, 91, 92, 93, 94, 93, 92, 91, 36] :=
+  Classical.byContradiction fun h =>
+    absurd ((rewrite_rejects_stray_bracket Fixes.none [97, 91, 92, 93, 94, 93, 92, 91, 36]).1.mpr h) (by decide)
+example : ¬ WellBracketed [91, 97, 93, 92, 92, 93] :=
+  (rewrite_rejects_stray_bracket Fixes.none [91, 97, 93, 92, 92, 93]).1.mp (by decide)
+example : escapeLoop Fixes.all 0 false [91, 97, 93, 92, 92, 93] = .error .strayBracket :=
+  (rewrite_rejects_stray_bracket Fixes.all _).1.mpr ((rewrite_rejects_stray_bracket Fixes.none [91, 97, 93, 92, 92, 93]).1.mp (by decide))
 
 theorem render_eq_specEscape (fx : Fixes) (hf : fx.f25 = true) : ∀ (ts : List Tok) (d : Int), render fx d ts = specEscape d ts
   | [], _ => rfl
@@ -156,6 +202,13 @@ theorem rewrite_escapes_exactly (fx : Fixes) (hf : fx.f25 = true) (p out : Bytes
 -- non-vacuity: `^[$^]\^` ↦ `\^[$^]\^`
 example : escapeLoop { f25 := true } 0 false [94, 91, 36, 94, 93, 92, 94] = .ok [92, 94, 91, 36, 94, 93, 92, 94] := by decide
 
+/-- non-vacuity (audit): the theorem at `^a[$^\]]\^\\$` ↦ `\^a[$^\]]\^\\\$`: anchors at depth 0 (escaped by the loop), inside a
+class (left alone), an escaped `]` inside the class, an already escaped `^` (left alone), and a `$` after an escaped
+backslash (escaped) — the output is the spec's -/
+example : [92, 94, 97, 91, 36, 94, 92, 93, 93, 92, 94, 92, 92, 92, 36] =
+    specEscape 0 (tokens [94, 97, 91, 36, 94, 92, 93, 93, 92, 94, 92, 92, 36]) :=
+  rewrite_escapes_exactly { f25 := true } rfl [94, 97, 91, 36, 94, 92, 93, 93, 92, 94, 92, 92, 36] _ (by decide)
+
 /-- **The full-strength statement is false of the code as it is** (F25): the `^`/`$` case ignores `escaped`, the XSD
     escape `\^` becomes `\\^` — a literal backslash followed by an anchor. -/
 theorem rewrite_escapes_exactly_fails :
@@ -180,12 +233,27 @@ theorem rewrite_escapes_exactly_partial (p out : Bytes) (hno : ∀ t ∈ tokens 
 example : (∀ t ∈ tokens [97, 36, 91, 94, 98, 93, 92, 91, 94], t ≠ .esc bCaret ∧ t ≠ .esc bDollar) ∧
     escapeLoop Fixes.none 0 false [97, 36, 91, 94, 98, 93, 92, 91, 94] = .ok [97, 92, 36, 91, 94, 98, 93, 92, 91, 92, 94] := by decide
 
+/-- non-vacuity (audit): the theorem itself at that witness (anchor at depth 0, negated class, escaped `[`, trailing `^`) -/
+example : [97, 92, 36, 91, 94, 98, 93, 92, 91, 92, 94] = specEscape 0 (tokens [97, 36, 91, 94, 98, 93, 92, 91, 94]) :=
+  rewrite_escapes_exactly_partial [97, 36, 91, 94, 98, 93, 92, 91, 94] _ (by decide) (by decide)
+
 /-! ## C. pass 2: `\p{IsBlock}` substitution -/
 
 /-- `pre ++ "\p{Is" ++ name ++ "}" ++ post` with the needle `\p{Is` occurring nowhere before `pre.length` -/
 def FirstAt (pre name post : Bytes) : Prop :=
   ∀ j, j < pre.length → needle.isPrefixOf ((pre ++ (needle ++ (name ++ bRBrace :: post))).drop j) = false
 
+-- AUDIT: weaker than "full strength".  "Depth 0" / "inside a character class" is `depthOf pre`, i.e. the C code's OWN
+-- pass-2 depth loop, which looks only at the previous byte: it takes the `[` of `\\[` (an escaped backslash followed by
+-- an opening bracket) for an escaped bracket.  Pass 1 and the specs of part B use the token depth `balance (tokens pre)`.
+-- Where the two differ the theorem endorses a wrong output: at `\\[a]\p{IsGreek}` the escape stands outside every class
+-- (token depth 0), `depthOf` is -1, and the step with ALL repairs on drops the brackets: `\\[a]\x{0370}-\x{03FF}`
+-- (`block_subst_correct_weak_for_escaped_backslash`, kernel-checked).  The witnesses below show that the theorem is not
+-- vacuous.  Minimal repair of the statement: `balance (tokens pre) = 0` instead of `depthOf pre = 0`.  That statement is
+-- FALSE of the code even with F1/F25/F186 repaired (`block_subst_tokdepth_fails`) — a residual defect of the pass-2
+-- depth loop that no recorded finding covers (F1 only mentions this pattern as the crash witness) — and true under the
+-- extra hypothesis `depthOf pre = balance (tokens pre)` (`block_subst_correct_tokdepth`).  DECISION NEEDED: record the
+-- defect and make the token-depth statement the full-strength one (then this theorem becomes its `_partial`).
 /-- **Full strength, repaired step** (fixes/F1.diff + fixes/F186.diff): `\p{IsX}` is replaced by the range text of the row
     named exactly X — with its brackets at depth 0, without them inside a character class — and an X that is not a row
     name is rejected.  (Any table, any `URANGE_LEN`.) -/
@@ -213,6 +281,68 @@ theorem block_subst_correct (fx : Fixes) (h1 : fx.f1 = true) (h186 : fx.f186 = t
   · intro hn
     rw [hstep]
     simp only [h186, if_true, hn]
+
+/-- non-vacuity (audit): the theorem on the table of the source at `a\p{IsGreek}+` (depth 0: row 7 with its brackets) -/
+example : (ublocks.getD 7 ([], [])).1 = [71, 114, 101, 101, 107] ∧
+    chblocksStep Fixes.all ublocks 19 ([97] ++ (needle ++ ([71, 114, 101, 101, 107] ++ bRBrace :: [43]))) =
+      .next ([97] ++ (if depthOf [97] = 0 then (ublocks.getD 7 ([], [])).2.take 19
+                      else ((ublocks.getD 7 ([], [])).2.drop 1).take (19 - 2)) ++ [43]) :=
+  (block_subst_correct Fixes.all rfl rfl ublocks 19 [97] [71, 114, 101, 101, 107] [43] (by unfold FirstAt; decide) (by decide)).1 7 (by decide)
+/-- … which is `a[\x{0370}-\x{03FF}]+` -/
+example : chblocksStep Fixes.all ublocks 19 ([97] ++ (needle ++ ([71, 114, 101, 101, 107] ++ bRBrace :: [43]))) =
+    .next [97, 91, 92, 120, 123, 48, 51, 55, 48, 125, 45, 92, 120, 123, 48, 51, 70, 70, 125, 93, 43] := by decide
+/-- non-vacuity (audit): inside a class, and a name that has another row name as a proper prefix (F186):
+`[a\p{IsGreekExtended}]` ↦ `[a\x{1F00}-\x{1FFF}]` (row 38 without its brackets, not row 7) -/
+example : chblocksStep Fixes.all ublocks 19 ([91, 97] ++ (needle ++ ([71, 114, 101, 101, 107, 69, 120, 116, 101, 110, 100, 101, 100] ++ bRBrace :: [93]))) =
+    .next [91, 97, 92, 120, 123, 49, 70, 48, 48, 125, 45, 92, 120, 123, 49, 70, 70, 70, 125, 93] :=
+  ((block_subst_correct Fixes.all rfl rfl ublocks 19 [91, 97] [71, 114, 101, 101, 107, 69, 120, 116, 101, 110, 100, 101, 100] [93] (by unfold FirstAt; decide) (by decide)).1 38
+    (by decide)).2
+/-- non-vacuity (audit): the second conjunct — `\p{IsGrek}` is no row name -/
+example : chblocksStep Fixes.all ublocks 19 ([97] ++ (needle ++ ([71, 114, 101, 107] ++ bRBrace :: [43]))) = .fail .unknownBlock :=
+  (block_subst_correct Fixes.all rfl rfl ublocks 19 [97] [71, 114, 101, 107] [43] (by unfold FirstAt; decide) (by decide)).2 (by decide)
+
+/-- **The depth of `block_subst_correct` is the code's, not the pattern's (audit).** `\\[a]\p{IsGreek}`: the text before the
+escape is an escaped backslash and the complete class `[a]` — token depth 0, the escape stands outside every class —
+but the pass-2 depth loop, which only looks at the previous byte, arrives at -1, and the step WITH ALL REPAIRS drops
+the brackets of the range: `\\[a]\x{0370}-\x{03FF}`. -/
+theorem block_subst_correct_weak_for_escaped_backslash :
+    balance (tokens [92, 92, 91, 97, 93]) = 0 ∧ WellBracketed [92, 92, 91, 97, 93] ∧ depthOf [92, 92, 91, 97, 93] = -1 ∧
+    FirstAt [92, 92, 91, 97, 93] [71, 114, 101, 101, 107] [] ∧
+    chblocksStep Fixes.all ublocks 19 ([92, 92, 91, 97, 93] ++ (needle ++ ([71, 114, 101, 101, 107] ++ bRBrace :: []))) =
+      .next ([92, 92, 91, 97, 93] ++ [92, 120, 123, 48, 51, 55, 48, 125, 45, 92, 120, 123, 48, 51, 70, 70, 125]) := by
+  refine ⟨by decide, ?_, by decide, by unfold FirstAt; decide, by decide⟩
+  exact Classical.byContradiction fun h =>
+    absurd ((rewrite_rejects_stray_bracket Fixes.none [92, 92, 91, 97, 93]).1.mpr h) (by decide)
+
+/-- **The repaired full-strength statement (token depth) is false of the code with F1, F25 and F186 repaired (audit).** -/
+theorem block_subst_tokdepth_fails :
+    ¬ ∀ (pre name post : Bytes) (i : Nat), FirstAt pre name post → bRBrace ∉ name → findBlockExact ublocks name = some i →
+      chblocksStep Fixes.all ublocks Generated.UBlocks.URANGE_LEN (pre ++ (needle ++ (name ++ bRBrace :: post))) =
+        .next (pre ++ (if balance (tokens pre) = 0 then (ublocks.getD i ([], [])).2.take Generated.UBlocks.URANGE_LEN
+                       else ((ublocks.getD i ([], [])).2.drop 1).take (Generated.UBlocks.URANGE_LEN - 2)) ++ post) := by
+  intro h
+  have := h [92, 92, 91, 97, 93] [71, 114, 101, 101, 107] [] 7 block_subst_correct_weak_for_escaped_backslash.2.2.2.1 (by decide) (by decide)
+  revert this
+  decide
+
+/-- **`block_subst_correct` with the depth of the pattern (audit)**: the statement with the token depth of pass 1 holds
+of the repaired step wherever the pass-2 depth loop agrees with it (no `\\[`, `\\]` before the escape, for instance). -/
+theorem block_subst_correct_tokdepth (fx : Fixes) (h1 : fx.f1 = true) (h186 : fx.f186 = true)
+    (tbl : List (Bytes × Bytes)) (ulen : Nat) (pre name post : Bytes)
+    (hfirst : FirstAt pre name post) (hname : bRBrace ∉ name) (hdepth : depthOf pre = balance (tokens pre)) :
+    (∀ i, findBlockExact tbl name = some i →
+      (tbl.getD i ([], [])).1 = name ∧
+      chblocksStep fx tbl ulen (pre ++ (needle ++ (name ++ bRBrace :: post))) =
+        .next (pre ++ (if balance (tokens pre) = 0 then (tbl.getD i ([], [])).2.take ulen
+                       else ((tbl.getD i ([], [])).2.drop 1).take (ulen - 2)) ++ post)) ∧
+    (findBlockExact tbl name = Option.none →
+      chblocksStep fx tbl ulen (pre ++ (needle ++ (name ++ bRBrace :: post))) = .fail .unknownBlock) := by
+  rw [← hdepth]
+  exact block_subst_correct fx h1 h186 tbl ulen pre name post hfirst hname
+
+/-- non-vacuity (audit): the depth hypothesis holds at `[\]a` (an escaped `]` inside an open class: both depths are 1) -/
+example : depthOf [91, 92, 93, 97] = balance (tokens [91, 92, 93, 97]) ∧ balance (tokens [91, 92, 93, 97]) = 1 ∧
+    FirstAt [91, 92, 93, 97] [71, 114, 101, 101, 107] [93] := ⟨by decide, by decide, by unfold FirstAt; decide⟩
 
 /-- **The full-strength statement is false of the code as it is** (F1): at depth 0 `\p{IsGreek}` becomes the *first* row
     (BasicLatin), not the Greek row. -/
@@ -258,6 +388,14 @@ example : FirstAt [91] [71, 114, 101, 101, 107] [93] := by
   subst this
   decide
 
+/-- non-vacuity (audit): the theorem at that witness, table of the source, `URANGE_LEN` 19 -/
+example : chblocksStep Fixes.none ublocks 19 ([91] ++ (needle ++ ([71, 114, 101, 101, 107] ++ bRBrace :: [93]))) =
+    if (findBlock ublocks ([71, 114, 101, 101, 107] ++ bRBrace :: [93])).isNone then .fail .unknownBlock
+    else if depthOf [91] < 0 ∨ depthOf [91] ≥ (ublocks.length : Int) then .fail .crash
+    else if depthOf [91] = 0 then .next ([91] ++ (ublocks.getD 0 ([], [])).2.take 19 ++ [93])
+    else .next ([91] ++ ((ublocks.getD (depthOf [91]).toNat ([], [])).2.drop 1).take (19 - 2) ++ [93]) :=
+  block_subst_as_is ublocks 19 [91] [71, 114, 101, 101, 107] [93] (by unfold FirstAt; decide) (by decide)
+
 /-- **Memory safety of the table access, repaired code**: with F1 repaired no pattern makes the rewrite index
     `ublock2urange` outside its rows. -/
 theorem block_subst_index_in_table (fx : Fixes) (h1 : fx.f1 = true) (p : Bytes) : rewriteWith fx p ≠ .error .crash := by
@@ -268,6 +406,13 @@ theorem block_subst_index_in_table (fx : Fixes) (h1 : fx.f1 = true) (p : Bytes) 
     subst this
     intro h; cases h
   · exact chblocksLoop_no_crash fx h1 _ _ _ _
+
+/-- non-vacuity (audit): `fx.f1 = true` is met by `{ f1 := true }`; on the crash witness `\\[a]\p{IsGreek}` of
+`block_subst_index_in_table_fails` the rewrite then returns a text -/
+example : rewriteWith { f1 := true } [92, 92, 91, 97, 93, 92, 112, 123, 73, 115, 71, 114, 101, 101, 107, 125] ≠ .error .crash :=
+  block_subst_index_in_table { f1 := true } rfl _
+example : rewriteWith { f1 := true } [92, 92, 91, 97, 93, 92, 112, 123, 73, 115, 71, 114, 101, 101, 107, 125] =
+    .ok [92, 92, 91, 97, 93, 92, 120, 123, 48, 51, 55, 48, 125, 45, 92, 120, 123, 48, 51, 70, 70, 125] := by decide
 
 /-- **False of the code as it is** (F1): `\\[a]\p{IsGreek}` — an escaped backslash, then a class.  Pass 2 counts the `[` as
     escaped (it only looks at the previous byte) and the `]` not: the counter wraps below zero and is used as the row. -/
@@ -313,6 +458,12 @@ theorem ublock_rows_match_xsd :
     (ublocks.getLast?.map fun row => (rowName row.1, decide (row.2.length > Generated.UBlocks.URANGE_LEN))) = some ("Specials", true) := by
   decide +kernel
 
+/-- non-vacuity (audit): the bounded quantifier ranges over 83 rows, and the `Option` equation of the one row exempted from
+the single-range clause (`PrivateUse`, row 74) is `some = some`, not `none = none` -/
+example : ublocks.dropLast.length = 83 ∧ (ublocks.getD 74 ([], [])).1 = [80, 114, 105, 118, 97, 116, 101, 85, 115, 101] ∧
+    parseRow (ublocks.getD 74 ([], [])).2 = some (0xE000, 0xF8FF) := by decide +kernel
+example : (Unicode.blockRanges "PrivateUse").map (fun rs => rs.take 1) = some [(0xE000, 0xF8FF)] := by decide +kernel
+
 /-- the needle cannot be re-created by a replacement: no range text contains `\p{Is`, starts with `p`, `{`, `I`, `s` or ends
     with `\`, `p`, `{`, `I` (the facts the termination argument of the `while` loop rests on) -/
 theorem ublock_rows_do_not_recreate_needle :
@@ -326,6 +477,14 @@ theorem ublock_rows_do_not_recreate_needle :
     occurrence on strictly decreases (`mu_decreases`). -/
 theorem chblocks_terminates (fx : Fixes) (t : Bytes) : chblocks fx t ≠ .error .fuel :=
   chblocks_fuel_sufficient fx t
+
+/-- non-vacuity (audit): the conclusion is not a triviality of the model — with one round of fuel less than the loop
+needs it does report `.fuel`; `\p{IsGreek}[\p{IsThai}]` takes two rounds and a final look -/
+example : chblocksLoop Fixes.all ublocks 19 2 [92, 112, 123, 73, 115, 71, 114, 101, 101, 107, 125, 91, 92, 112, 123, 73, 115, 84, 104, 97, 105, 125, 93] =
+      .error .fuel ∧
+    chblocks Fixes.all [92, 112, 123, 73, 115, 71, 114, 101, 101, 107, 125, 91, 92, 112, 123, 73, 115, 84, 104, 97, 105, 125, 93] =
+      .ok [91, 92, 120, 123, 48, 51, 55, 48, 125, 45, 92, 120, 123, 48, 51, 70, 70, 125, 93, 91, 92, 120, 123, 48, 69,
+        48, 48, 125, 45, 92, 120, 123, 48, 69, 55, 70, 125, 93] := by decide
 
 /-- the whole rewrite is total: its only outcomes are a text, one of the three diagnostics, or (code as it is) the crash -/
 theorem rewrite_never_out_of_fuel (fx : Fixes) (p : Bytes) : rewriteWith fx p ≠ .error .fuel := by
